@@ -163,7 +163,8 @@ def r16_4(ctx):
         else:
             ctx.ok(('lookup', 'found-unexpired'), sample=dict(fn='Cache::lookup', found_only='timestamp < expires_at'))
     # NotFound only behind !(timestamp < silent_until): every path, including the one of an expired entry
-    silent = lambda f: f[0] == 'rel' and f[1] in ('Ge',) and simplify(f[2]) == ('arg', 3) and is_field(f[3], NC, 'silent_until')
+    silent = lambda f: f[0] == 'rel' and ((f[1] in ('Ge',) and simplify(f[2]) == ('arg', 3) and is_field(f[3], NC, 'silent_until'))
+                                          or (f[1] in ('Le',) and simplify(f[3]) == ('arg', 3) and is_field(f[2], NC, 'silent_until')))
     for bi, var in rl_nf:
         if var == 'NotFound':
             if unguarded(F, b, [bi], silent):
